@@ -25,6 +25,28 @@ var statusFlowExceptions = map[string]string{
 	"(*path/exec.Executor).executeItemOptUnwrapResult": "requires a collector (documented: found must not be nil) and its callers read the collector, never the non-failed status; PostgreSQL's executeItemOptUnwrapResult returns jperOk in the same place",
 }
 
+// loopsGuardedByEmptyMapTest: every loop header of fn is dominated by a test
+// len(map) == 0 whose true branch returns not found.
+func (p *Prog) loopsGuardedByEmptyMapTest(fn *ssa.Function) bool {
+	n := 0
+	for _, b := range fn.Blocks {
+		isHeader := false
+		for _, pr := range b.Preds {
+			if b.Dominates(pr) {
+				isHeader = true
+			}
+		}
+		if !isHeader {
+			continue
+		}
+		n++
+		if !p.emptyMapReturnsNotFound(fn, b) {
+			return false
+		}
+	}
+	return n > 0
+}
+
 func (p *Prog) collectorParam(fn *ssa.Function) *ssa.Parameter {
 	var coll *ssa.Parameter
 	for _, q := range fn.Params {
@@ -253,6 +275,162 @@ func (p *Prog) statusFlowCheck(fn *ssa.Function, c *ssa.Call, coll *ssa.Paramete
 	return probs
 }
 
+// zeroIterExceptions: functions whose loop cannot run zero times for a reason
+// the walk cannot see; the stated premise is checked structurally.
+var zeroIterExceptions = map[string]string{
+	"(*path/exec.Executor).executeKeyValueMethod": "the loop over the object's keys runs at least once: an empty object has returned `not found` already",
+	"path/exec.executeKeyValueMethod":             "the loop over the object's keys runs at least once: an empty object has returned `not found` already",
+}
+
+// emptyMapReturnsNotFound: a test `len(m) == 0` on a map whose true branch
+// returns the constant not-found dominates block b.
+func (p *Prog) emptyMapReturnsNotFound(fn *ssa.Function, b *ssa.BasicBlock) bool {
+	nfK := constOf(p.A.StatusConsts["statusNotFound"])
+	for _, f := range factsAt(b) {
+		bo, ok := f.Cond.(*ssa.BinOp)
+		if !ok || !((bo.Op == token.EQL && !f.Truth) || (bo.Op == token.NEQ && f.Truth) || (bo.Op == token.GTR && f.Truth)) {
+			continue
+		}
+		lc, ok := bo.X.(*ssa.Call)
+		if !ok {
+			continue
+		}
+		bi, ok := lc.Call.Value.(*ssa.Builtin)
+		if !ok || bi.Name() != "len" {
+			continue
+		}
+		if _, isMap := lc.Call.Args[0].Type().Underlying().(*types.Map); !isMap {
+			continue
+		}
+		if k, ok := constInt(bo.Y); !ok || k != 0 {
+			continue
+		}
+		// the other edge returns not found
+		blk := bo.Block()
+		if iff, ok := blk.Instrs[len(blk.Instrs)-1].(*ssa.If); ok && iff.Cond == ssa.Value(bo) {
+			other := blk.Succs[0]
+			if (bo.Op == token.NEQ || bo.Op == token.GTR) && f.Truth {
+				other = blk.Succs[1]
+			}
+			if r, ok := other.Instrs[len(other.Instrs)-1].(*ssa.Return); ok && len(r.Results) == 2 {
+				if k, ok := constInt(stripConv(unspill(other, r, r.Results[0]))); ok && k == nfK {
+					return true
+				}
+			}
+		}
+	}
+	return false
+}
+
+// entryFlowCheck: paths from the entry of fn on which nothing is produced
+// (no evaluation receives the collector, nothing is appended, no test of the
+// collector is passed) must not return the constant `found`.
+func (p *Prog) entryFlowCheck(fn *ssa.Function, coll *ssa.Parameter) []string {
+	okK := constOf(p.A.StatusConsts["statusOK"])
+	var probs []string
+	seen := map[string]bool{}
+	type envT map[*ssa.Phi]ssa.Value
+	resolve := func(v ssa.Value, env envT) ssa.Value {
+		for i := 0; i < 10; i++ {
+			v = stripConv(v)
+			ph, ok := v.(*ssa.Phi)
+			if !ok {
+				return v
+			}
+			nv, ok := env[ph]
+			if !ok {
+				return v
+			}
+			v = nv
+		}
+		return v
+	}
+	budget := 20000
+	var walk func(b, from *ssa.BasicBlock, env envT, on map[*ssa.BasicBlock]bool, evidence bool)
+	walk = func(b, from *ssa.BasicBlock, env envT, on map[*ssa.BasicBlock]bool, evidence bool) {
+		if budget <= 0 || on[b] || b == fn.Recover {
+			return
+		}
+		budget--
+		nenv := make(envT, len(env)+2)
+		for k, v := range env {
+			nenv[k] = v
+		}
+		for i, pr := range b.Preds {
+			if pr != from {
+				continue
+			}
+			for _, ins := range b.Instrs {
+				ph, ok := ins.(*ssa.Phi)
+				if !ok {
+					break
+				}
+				nenv[ph] = resolve(ph.Edges[i], env)
+			}
+		}
+		non := make(map[*ssa.BasicBlock]bool, len(on)+1)
+		for k := range on {
+			non[k] = true
+		}
+		non[b] = true
+		for _, ins := range b.Instrs {
+			switch x := ins.(type) {
+			case *ssa.Call:
+				if tinyPredicate(x.Call.StaticCallee()) {
+					continue
+				}
+				for _, a := range x.Call.Args {
+					if a == ssa.Value(coll) {
+						return // an evaluation or an append takes over
+					}
+				}
+				// a local list handed to an evaluation whose content is read later is evidence too
+				if sig := calleeSig(x); sig != nil && p.pairKind(sig) == "status" {
+					return
+				}
+			case *ssa.Return:
+				if len(x.Results) != 2 {
+					return
+				}
+				if k, ok := constInt(resolve(unspill(b, x, x.Results[0]), nenv)); ok && k == okK && !evidence {
+					s := "the return at " + p.pos(x.Pos()) + " reports `found` (a constant, or a status variable still at its zero value) on a path from the entry that hands nothing on"
+					if !seen[s] {
+						seen[s] = true
+						probs = append(probs, s)
+					}
+				}
+				return
+			case *ssa.Panic:
+				return
+			case *ssa.If:
+				tv, _ := collTruth(x.Cond, coll, false, func(v ssa.Value) ssa.Value { return resolve(v, nenv) }, 0)
+				if readsCollector(resolve(x.Cond, nenv), coll, 0) || readsCollector(x.Cond, coll, 0) {
+					evidence = true // the answer is taken from the content of the list
+				}
+				for si, s := range b.Succs {
+					// only the run with a collector is followed: without one the
+					// shortcuts are R-EARLYEXIT's business
+					if (si == 0 && tv == triFalse) || (si == 1 && tv == triTrue) {
+						continue
+					}
+					if k, ok := resolve(x.Cond, nenv).(*ssa.Const); ok && k.Value != nil {
+						if (k.Value.ExactString() == "true") != (si == 0) {
+							continue
+						}
+					}
+					walk(s, b, nenv, non, evidence)
+				}
+				return
+			case *ssa.Jump:
+				walk(b.Succs[0], b, nenv, non, evidence)
+				return
+			}
+		}
+	}
+	walk(fn.Blocks[0], nil, envT{}, map[*ssa.BasicBlock]bool{}, false)
+	return probs
+}
+
 var ruleStatusFlow = &Rule{
 	Name: "R-STATUSFLOW", NeedSSA: true,
 	Doc: "after every call that forwards a status function's own collector to another evaluation and whose status is read, on the outcome (not found, nil) every CFG path (phis resolved along the path, tests of the status decided) reaches, before another evaluation takes over, a return whose status is the call's own, the constant not-found or failed, a status carried from an earlier element, or OK backed by an append to the collector or a test of its content on that path; a status variable left at its zero value (`found`) turns `nothing` into `found` for Exists; tabled exception: the unwrap-result helper whose callers read the collector",
@@ -301,6 +479,32 @@ var ruleStatusFlow = &Rule{
 				}
 			}
 		}
+		// (b) from the entry: nothing handed on, yet `found`
+		nent := 0
+		for _, fn := range p.execFuncs() {
+			if p.pairKind(fn.Signature) != "status" {
+				continue
+			}
+			coll := p.collectorParam(fn)
+			if coll == nil {
+				continue
+			}
+			nent++
+			key := fnName(fn) + ": nothing handed on is not `found`"
+			probs := p.entryFlowCheck(fn, coll)
+			switch {
+			case len(probs) == 0:
+				out.ok(key, p.pos(fn.Pos()), fnName(fn), "with a collector, every path from the entry to a constant `found` passes an evaluation that receives the collector or an append to it")
+			case statusFlowExceptions[fnName(fn)] != "":
+				out.excepted(key, p.pos(fn.Pos()), fnName(fn), statusFlowExceptions[fnName(fn)])
+			case zeroIterExceptions[fnName(fn)] != "" && p.loopsGuardedByEmptyMapTest(fn):
+				out.excepted(key, p.pos(fn.Pos()), fnName(fn), zeroIterExceptions[fnName(fn)]+" (checked: a test len(map) == 0 returning not-found dominates every loop of the function)")
+			default:
+				out.viol(key, p.pos(fn.Pos()), fnName(fn), "with a collector the function can answer `found` without having handed anything on: "+probs[0]+" (a loop that runs zero times, a status variable never assigned)", probs...)
+			}
+		}
+		out.Counts["status_functions_with_a_collector"] = nent
+		out.Floors["status_functions_with_a_collector"] = 30
 		out.Counts["forwarding_calls_with_status_read"] = n
 		out.Floors["forwarding_calls_with_status_read"] = 8
 		return out
